@@ -8,7 +8,7 @@ CLAIM = {
     "text": ("Decides the structural clauses of C05: (R1) every file-system predicate or destructive call on the dataset file in Harvester.load_full_ds / save_full_ds / delete_ds and manage.save_merge_ds uses the extension-normalised name, "
              "normalised with the engine actually used for the I/O, and save_merge_ds loads and saves with one engine; (R2) both siblings implement the overwrite table (True: new.combine_first(old); False: old.combine_first(new); "
              "None: merge with compat='no_conflicts' and nothing else) -- evaluated per policy value on the feasible paths; (R3) with sync add_ds reloads the on-disk data before merging for every in-memory state, the possibly raising merge precedes every store "
-             "to memory and every disk effect, the save follows on every normal path and saves the very object kept in memory; expand_dims / drop_sel persist through the same save (R4); (R6) typestate of the in-memory dataset {saved, unsaved}: data stored in memory only (sync falsy) must be carried over a later reload -- on the current tree it is not (known finding F19: sync=False then sync=True drops the unsaved points). Not decided: xarray merge / combine_first semantics, netCDF round trip."),
+             "to memory and every disk effect, the save follows on every normal path and saves the very object kept in memory; expand_dims / drop_sel persist through the same save (R4); (R4 also: expand_dims / drop_sel reload the file before deriving the dataset they save, and expand_dims labels the new dimension for every value incl. falsy ones); (R7) a failing load of the existing file propagates -- only an absent file means 'no data yet' -- and the loader never replaces the in-memory data by a constant; (R6) typestate of the in-memory dataset {saved, unsaved}: data stored in memory only (sync falsy) must be carried over a later reload -- on the current tree it is not (known finding F19: sync=False then sync=True drops the unsaved points). Not decided: xarray merge / combine_first semantics, netCDF round trip."),
     "note": "Trusted base: xarray merge(compat='no_conflicts') raises on conflicting values and combine_first prefers the receiver; CPython semantics of the parsed ast.",
     "technique": "static analysis: provenance (D-NAME) rule on file-name expressions, sibling cross-check of the policy table under truthiness-partitioned dataflow, effect-order (load/merge/save) CFG rules",
 }
